@@ -97,6 +97,9 @@ def main():
     tier = 'thorough' if a.tier.startswith('t') else 'quick'
     seed = int(os.environ.get('VERIF_SEED', '0'))
     prop = a.prop.upper()
+    # per-query solver timeout: 30 s (quick), 150 s (thorough); `unknown` is retried with other solver
+    # configurations and finally reported as inconclusive
+    os.environ.setdefault('VERIF_QTO_MS', '30000' if tier == 'quick' else '150000')
     t0 = time.time()
     H = explore.load_harness(prop)
     feats = set(H.features)
